@@ -150,10 +150,22 @@ func init() {
 					}
 				}
 			}
+			// a first operand of one or two arbitrary printable bytes ("--", "-", "-h", "=="): no operand is
+			// an option, the arity rules hold whatever the operands are
+			for _, nm := range []string{"npm", "semver", "vers"} {
+				for _, cm := range []string{"compare", "contains", "sort"} {
+					for n := 3; n <= 5; n++ {
+						for _, a2 := range []string{"{P}", "{P}{P}"} {
+							out = append(out, &Config{ID: fmt.Sprintf("C15/argv/%d/%s/%s/operand/%s", n, nm, cm, a2), Pkg: cmdPkg, Func: "C15Argv", NoPanic: true,
+								Args: []ArgSpec{ArgInt(int64(n)), ArgStr(nm), ArgStr(cm), ArgTmpl(a2), ArgTmpl("{d}.{d}.{d}"), ArgTmpl("{d}.{d}.{d}")}})
+						}
+					}
+				}
+			}
 			return out
 		},
 		Bounds: func(tier string) string {
-			return "all 20 names + vers; compare: 7x7 (quick) / 11x11 argument templates incl. empty string, leading space/dash, embedded space and quotes; contains: 7 range templates x 5 version templates; sort: 3 arguments, one of them also with surrounding white space (space, tab, CR, LF) or a quote / backslash in a qualifier; vers: 4 range shapes x 2 probes per scheme; argument vectors of 0-5 arguments with symbolic names (2-6 letters, 2 raw bytes) and commands (4-8 letters)"
+			return "all 20 names + vers; compare: 7x7 (quick) / 11x11 argument templates incl. empty string, leading space/dash, embedded space and quotes; contains: 7 range templates x 5 version templates; sort: 3 arguments, one of them also with surrounding white space (space, tab, CR, LF) or a quote / backslash in a qualifier; vers: 4 range shapes x 2 probes per scheme; argument vectors of 0-5 arguments with symbolic names (2-6 letters, 2 raw bytes) and commands (4-8 letters), and with a first operand of 1-2 arbitrary printable bytes"
 		},
 		Assume: []string{"name -> ecosystem table is spec-side (zzh dispatchers generated from the list of 20 names)"},
 	})
